@@ -311,7 +311,18 @@ def run_app_limited(case):
     def arrival():
         st_["i"] += 1
         return gaps[(st_["i"] - 1) % len(gaps)]
-    flow = Flow(flow_id=3, src="s", dst="d", finish_time=inf, size=case["nseg"] * MSS, arrival_dist=arrival)
+    # the application hands over data in chunks of its own liking (size_dist) or the flow has a size that is no multiple of
+    # the MSS: only whole MSS segments of *buffered* data may go out
+    kw = {}
+    if case.get("chunks"):
+        chunks = list(case["chunks"])
+        cs = {"i": 0}
+
+        def size_dist():
+            cs["i"] += 1
+            return chunks[(cs["i"] - 1) % len(chunks)]
+        kw["size_dist"] = size_dist
+    flow = Flow(flow_id=3, src="s", dst="d", finish_time=inf, size=case["nseg"] * MSS + case.get("tail", 0), arrival_dist=arrival, **kw)
     snd = TCPPacketGenerator(env, flow, cc, element_id="tcp", rtt_estimate=case["rtt0"])
     snd.out = out
     highest = {"v": -MSS}
@@ -374,6 +385,8 @@ def run_app_limited(case):
             raise crash("C17.no_exception", e, f"in put(ack={ackno}) op {i}")
         settle()
     classes = {case["cc"]}
+    if case.get("chunks") or case.get("tail"):
+        classes.add("buffered data not a multiple of the MSS")
     if stats["shrunk_while_waiting"]:
         classes.add("window shrank between two new-data emissions")
     if stats["new"] >= 4:
@@ -396,6 +409,8 @@ def app_strategy(tier):
         "rtt0": st.sampled_from([1.0, 0.5, 0.75]),
         "nseg": st.sampled_from([12, 40]),
         "gaps": st.lists(st.sampled_from([0, 0.25, 0.5, 1, 1, 2]), min_size=1, max_size=5),
+        "chunks": st.one_of(st.none(), st.none(), st.lists(st.sampled_from([300, 700, 512, 1000, 100, 1024]), min_size=1, max_size=4)),
+        "tail": st.sampled_from([0, 0, 200, 488]),
         "ops": ops})
 
 
